@@ -253,7 +253,7 @@ KNOWN_RACES = {
 
 def run(ctx):
     tier = ctx.tier
-    ctx.set("rule", "part 1: for every ring scenario (io_max, nd, np, stripes, enabled bitmap, skip pattern, early stop, sync/scrub "
+    ctx.set("rule", "part 1: for every ring scenario (io_max, nd, np, stripes, enabled bitmap, skip pattern, early stop or an io_flush() after stripe k - which must return only when every scheduled parity write is complete -, sync/scrub "
                     "role, signal inside/outside the mutex, injected writer/reader error) ALL interleavings at synchronisation "
                     "points and inside the worker callbacks: unbounded with fingerprint pruning (mode 0) or preemption bounded "
                     "(mode 1, bound given). part 3: every --test-io-cache depth of the tier on 6 CLI scenarios x multi-scan on/off "
